@@ -278,39 +278,14 @@ theorem implied_c_lower (crit : Crit Rex) (a : Arith Rex) (l hi : Rex)
   field_simp
   ring
 
-/-- the hypotheses are satisfiable: the sample `1, 2, 4` with `c = 2` gives an `Ok` two-sided
-    interval and a non-zero standard error -/
-example : ∃ lo hi : Rex,
-    Arith.ciMean (constCrit 2 : Crit Rex) (Arith.fromList [inj 1, inj 2, inj 4] : Arith Rex)
-      (.twoSided (inj 0.95)) = .ok (.twoSided lo hi) ∧
-    semOf (Arith.fromList [inj 1, inj 2, inj 4] : Arith Rex) ≠ 0 := by
-  have hcount : (Arith.fromList [inj 1, inj 2, inj 4] : Arith Rex).count = 3 := by
-    rw [Arith.fromList_count]; rfl
-  have hq : probOk (Confidence.twoSided (inj 0.95 : Rex)).quantile = true := by
-    refine Confidence.probOk_of_valid_Rex _ ?_
-    simp [Confidence.validLevel, Confidence.level]; norm_num
-  have hsd : (Arith.fromList [inj 1, inj 2, inj 4] : Arith Rex).stdDev.val = Real.sqrt (7 / 3) := by
-    simp [Arith.stdDev, Arith.variance, Arith.mean, Arith.fromList, Arith.extend, Arith.append,
-      Arith.empty, Kahan.empty, Kahan.new, Kahan.add, Kahan.value]
-    norm_num
-  have hsd_pos : 0 < (Arith.fromList [inj 1, inj 2, inj 4] : Arith Rex).stdDev.val := by
-    rw [hsd]; exact Real.sqrt_pos.mpr (by norm_num)
-  have hsem : 0 < semOf (Arith.fromList [inj 1, inj 2, inj 4] : Arith Rex) := by
-    unfold semOf; rw [hcount]
-    exact div_pos hsd_pos (Real.sqrt_pos.mpr (by norm_num))
-  rw [Arith.ciMean_eq _ _ _ (by rw [hcount]; norm_num) rfl rfl hq]
-  have aux : ∀ (l lo hi : Rex), lo.val ≤ hi.val →
-      (intervalOfKind (Confidence.twoSided l) lo hi : Outcome (Err Rex) (Interval Rex)) =
-        .ok (.twoSided lo hi) := by
-    intro l lo hi hle
-    simp [intervalOfKind, Interval.new, liftI, not_lt.mpr hle]
-  refine ⟨_, _, aux _ _ _ ?_, hsem.ne'⟩
-  simp only [RR.down_eq, RR.up_eq, RR.sub_val, RR.add_val, RR.mul_val, RR.div_val,
-    RR.sqrt_val, RR.ofNat_val, id, Arith.critOf, constCrit]
-  have : 0 ≤ 2 * ((Arith.fromList [inj 1, inj 2, inj 4] : Arith Rex).stdDev.val /
-      Real.sqrt ((Arith.fromList [inj 1, inj 2, inj 4] : Arith Rex).count : ℝ)) :=
-    mul_nonneg (by norm_num) hsem.le
-  linarith
+/-- the hypotheses are satisfiable: the sample `1, 2` (a reachable state) with `c = 2` gives an `Ok`
+    two-sided interval and a non-zero standard error, at a valid level -/
+example : Examples.a12 = Arith.fromList [inj 1, inj 2] ∧
+    Confidence.validLevel (inj 0.95 : Rex) = true ∧
+    ∃ lo hi : Rex,
+      Arith.ciMean (constCrit 2 : Crit Rex) Examples.a12 (.twoSided (inj 0.95)) = .ok (.twoSided lo hi) ∧
+      semOf Examples.a12 ≠ 0 :=
+  ⟨Examples.a12_reachable, Examples.conf95_valid, Examples.arith_ok⟩
 
 /-! ## the headline: the CDF at the implied critical value -/
 
@@ -470,6 +445,12 @@ theorem unpaired_twoSided_cdf (Ft Qt : ℝ → ℝ → ℝ) (Φ Qz : ℝ → ℝ
     linarith
   rw [← hc']
   exact ⟨k1, k2⟩
+
+/-- the hypotheses are satisfiable: the samples `1, 2` and `1, 2` with `c = 2` -/
+example : ∃ lo hi : Rex,
+    Unpaired.ciMean (constCrit 2 : Crit Rex) ⟨Examples.a12, Examples.a12⟩ (.twoSided (inj 0.95)) =
+      .ok (.twoSided lo hi) ∧
+    (Unpaired.semF (⟨Examples.a12, Examples.a12⟩ : Unpaired Rex)).val ≠ 0 := Examples.unpaired_ok
 
 /-- the `z` of a proportion interval: `ci_wilson` asks the normal quantile for the same probability,
     once; under the inverse hypothesis `Φ z = (1+L)/2` resp. `L` -/
